@@ -592,8 +592,10 @@ class Check(PropertyCheck):
     design_ref = "§5 C11"
     level_text = ("Lean theorems held_while_intercepted / held_never_sent, resume_forwards_edited / resume_forwards_once, "
                   "remote_close_marks_held / remote_close_kills_held (a source close that the layer treats as a kill), "
-                  "kill_forwards_nothing_and_errors (_partial for the layers that consult the kill + _counterexample for TCP, "
-                  "UDP, WebSocket, DNS answers), siblings_progress / sibling_exchange_while_held, and "
+                  "kill_forwards_nothing_and_errors (whole-history form from the initial state for the layers that consult the "
+                  "kill, with well-formedness/distinctness of the held messages derived; _iff: a layer kind satisfies the kill "
+                  "clause exactly when its send-after-hook step consults the kill; _partial from any state; _counterexample "
+                  "for TCP, UDP, WebSocket, DNS answers), siblings_progress / sibling_exchange_while_held, and "
                   "waiting_only_while_intercepted / intercepted_hook_waits / resume_or_kill_releases about (i) a layer under "
                   "Layer.handle_event's pause-and-queue semantics with the per-protocol send-after-hook step, for ALL "
                   "schedules of arrivals and hook completions with any verdict, (ii) a parent routing to child layers, "
